@@ -220,6 +220,32 @@ func tablesDumpCmd(args []string) int {
 		}
 	}
 
+	// the other direction: every field number the printer has a name for, in a rule as the kernel would list
+	// it (a numeric and a string-valued rule with the field word replaced), reads back as that number
+	for _, baseLine := range []string{"-a always,exit -F pid=7", "-a always,user -F pid=7", "-a always,exit -F subj_user=abc", "-a always,exit -F pid=7 -F pid=1"} {
+		base := parseAndBuild(baseLine)
+		if base.ret != "ok" {
+			fatal("base rule does not build: %s", baseLine)
+		}
+		for n := 0; n < 256; n++ {
+			m := append([]byte(nil), base.wire...)
+			m[268] = byte(n) // fields[0]; the operator lives in fieldflags
+			text, r := toCmd(m)
+			if r != "ok" {
+				continue
+			}
+			o2 := parseAndBuild(text)
+			ok := true // a name that this list or value does not admit is not rebuilt: nothing to compare
+			if o2.ret == "ok" && len(o2.wire) >= 272 {
+				got := int(o2.wire[268]) | int(o2.wire[269])<<8 | int(o2.wire[270])<<16 | int(o2.wire[271])<<24
+				ok = got == n
+			}
+			trace++
+			w.write(map[string]interface{}{"k": "roundtrip", "trace": trace, "what": fmt.Sprintf("field number %d (printed as %q)", n, text), "line": baseLine, "ok": ok})
+			stats["rule_field_numbers"]++
+		}
+	}
+
 	// ---- the normalisation file -------------------------------------------------------------------------------
 	yp := filepath.Join(*repo, "aucoalesce", "normalizations.yaml")
 	data, err := os.ReadFile(yp)
